@@ -18,6 +18,24 @@ import (
 type keyring struct {
 	users []UserSpec
 	cache map[string][]byte
+	// keys that opened earlier traffic: a decoder keeps the key of an
+	// established session/connection instead of re-deriving it from the clock
+	worked    [][]byte
+	workedWho []int
+}
+
+func (k *keyring) remember(key []byte, who int) {
+	for _, w := range k.worked {
+		if string(w) == string(key) {
+			return
+		}
+	}
+	k.worked = append(k.worked, key)
+	k.workedWho = append(k.workedWho, who)
+	if len(k.worked) > 64 {
+		k.worked = k.worked[1:]
+		k.workedWho = k.workedWho[1:]
+	}
 }
 
 func newKeyring(us []UserSpec) *keyring { return &keyring{users: us, cache: map[string][]byte{}} }
@@ -42,6 +60,8 @@ func (k *keyring) around(t time.Time) (keys [][]byte, who []int) {
 			who = append(who, ui)
 		}
 	}
+	keys = append(keys, k.worked...)
+	who = append(who, k.workedWho...)
 	return
 }
 
@@ -188,7 +208,11 @@ func analyzeTCP(e *Env, o WireOpts) *WireReport {
 					break
 				}
 			}
-			if dec.Err == nil && dec.Buffered() > 0 && !o.Faulty {
+			// With TCP fragmentation a control segment is written in pieces; a
+			// connection torn down between two pieces ends with a partial
+			// segment, which any stream decoder sees at end of stream.
+			fragOn := o.Pat[d] != nil && o.Pat[d].GetTcpFragment().GetEnable()
+			if dec.Err == nil && dec.Buffered() > 0 && !o.Faulty && !fragOn {
 				need, have := dec.PendingNeed()
 				rep.add("C09", "tcp|trailing-bytes|"+simnet.Dir(d).String(), fmt.Sprintf("pair %d %v: %d undecodable trailing bytes (segment needs %d)", id, simnet.Dir(d), have, need))
 			}
@@ -472,6 +496,9 @@ func analyzeUDP(e *Env, o WireOpts) *WireReport {
 		u := -1
 		if seg != nil && seg.KeyIdx < len(who) {
 			u = who[seg.KeyIdx]
+			if err == nil {
+				kr.remember(keys[seg.KeyIdx], u)
+			}
 		}
 		return seg, u, err
 	}
